@@ -46,6 +46,10 @@ class HarnessError(Exception):
     pass
 
 
+# wall-clock limit for ONE scenario execution before it is declared hung (see _Prop.execute)
+HANG_S = float(os.environ.get("VERIF_HANG_S", "60"))
+
+
 # ---------------------------------------------------------------------------
 # tree under test
 # ---------------------------------------------------------------------------
@@ -208,9 +212,19 @@ class _Prop:
             except BaseException as e:  # pylint: disable=broad-except
                 box["err"] = e
 
-        t = threading.Thread(target=body, name="sim-run")
+        t = threading.Thread(target=body, name="sim-run", daemon=True)
         t.start()
-        t.join()
+        hang_s = HANG_S
+        t.join(hang_s)
+        if t.is_alive():
+            # The code under test blocks without making a single transport call (every transport
+            # call counts against the step budget, so a busy loop over the stream cannot end here):
+            # a deadlock / endless loop inside the library.  Typical runs take milliseconds; the
+            # limit is four orders of magnitude above that.  The stuck daemon thread is abandoned.
+            prop = self._mod.PROP
+            v = violation(prop, "hang", f"no result after {hang_s} s of wall-clock although no transport call is pending: the library blocks or loops internally")
+            explicit = {k: val for k, val in scn.items() if k != "sched"} if "sched" not in scn else None
+            return {"digest": digest_of(("hang", prop)), "violation": v, "explicit": explicit or scn, "stats": {}, "hung": True}
         if "err" in box:
             raise box["err"]
         return box["out"]
@@ -284,14 +298,18 @@ def _run_block_here(args):
             for k, v in st.get("sets", {}).items():
                 agg["sets"].setdefault(k, set()).update(v)
             agg["sim_seconds"] += st.get("sim_seconds", 0.0)
+            if out.get("hung"):
+                agg["hung_at"] = index
             if out["violation"] is not None:
                 if len(agg["violations"]) < 50:
                     agg["violations"].append((index, out["violation"]))
                 agg["counters"]["violating_runs"] = agg["counters"].get("violating_runs", 0) + 1
                 vk = "viol:" + out["violation"]["class"]
                 agg["counters"][vk] = agg["counters"].get(vk, 0) + 1
-            if index < 3 or (index % 9973 == 0 and len(agg["samples"]) < 2):
+            if not out.get("hung") and (index < 3 or (index % 9973 == 0 and len(agg["samples"]) < 2)):
                 agg["samples"].append(mod.sample_view(scn, out))
+            if out.get("hung"):
+                break  # the rest of this block is not run
         agg["log_digest"] = agg["log_digest"].hexdigest()
         agg["nontrivial"] = agg["nontrivial"].tobytes()
         return start, agg
@@ -520,6 +538,7 @@ def run_check(prop, tier, master, workers, runs_override=None, write=True):
 
     ctx = multiprocessing.get_context("fork")
     results = {}
+    hung_stop = False
     with ProcessPoolExecutor(max_workers=workers, mp_context=ctx, initializer=_worker_init, initargs=(prop, watchdog)) as pool:
         futs = [pool.submit(_run_block, t) for t in tasks]
         try:
@@ -529,6 +548,19 @@ def run_check(prop, tier, master, workers, runs_override=None, write=True):
                     raise HarnessError("incomplete: wall-clock cap hit")
                 start, agg = f.result(timeout=remaining)
                 results[start] = agg
+                if agg.get("hung_at") is not None:
+                    # the library hangs: every further occurrence would cost the full hang limit.
+                    # This is the lowest-numbered block with a hang (blocks are collected in order):
+                    # report it, drop the rest of the batch.
+                    hung_stop = True
+                    for g in futs:
+                        g.cancel()
+                    for p in list(getattr(pool, "_processes", {}).values()):
+                        try:
+                            p.kill()
+                        except Exception:
+                            pass
+                    break
         except Exception as e:
             for f in futs:
                 f.cancel()
@@ -543,7 +575,7 @@ def run_check(prop, tier, master, workers, runs_override=None, write=True):
 
     lines_reached = None
     nsample = getattr(mod, "TRACE_SAMPLE", 200)
-    if nsample:
+    if nsample and not hung_stop:
         with ProcessPoolExecutor(max_workers=1, mp_context=ctx, initializer=_worker_init, initargs=(prop, watchdog)) as pool:
             try:
                 lines_reached = pool.submit(_trace_sample, (prop, master, tier, min(nsample, nruns))).result(timeout=1800)
@@ -579,7 +611,7 @@ def run_check(prop, tier, master, workers, runs_override=None, write=True):
 
     # extra systematic part (enumerations), if the property has one
     extra = {}
-    if hasattr(mod, "systematic"):
+    if hasattr(mod, "systematic") and not hung_stop:
         ex = in_child(mod.systematic, tier, master, workers)
         extra = ex.get("coverage", {})
         all_viol.extend(ex.get("violations", []))
@@ -678,6 +710,10 @@ def report_violation(mod, prop, master, tier, index, v, block=0):
     if not _same_class(out2, klass):
         raise HarnessError(f"nondeterministic: explicit scenario of run {index} does not reproduce {klass}")
     nexec = 0
+    global HANG_S
+    hang_full = HANG_S
+    if klass.endswith(":hang"):
+        HANG_S = min(HANG_S, 8.0)  # shrinking a hang: every failing candidate costs the limit
     if history:
         history, nexec = minimise_history(mod, history, explicit, klass)
     small, n2 = minimise(mod, explicit, klass, history=history)
@@ -687,6 +723,7 @@ def report_violation(mod, prop, master, tier, index, v, block=0):
         h, n3 = minimise(mod, history[i], klass, budget_s=40.0, max_execs=600, history=history[:i], after=history[i + 1 :] + [small])
         history[i] = h
         nexec += n3
+    HANG_S = hang_full
     out3 = exec_isolated(mod, history + [small])[-1]
     if not _same_class(out3, klass):
         small, out3 = explicit, exec_isolated(mod, history + [explicit])[-1]
